@@ -260,3 +260,17 @@ V("C19", "status-ignored", "F", "R1", DLP, "        if response.getcode() == 200
 V("C19", "all-takes-unused", "F", "R2", DLC, "        licenses = report.missing_licenses.keys()", "        licenses = report.unused_licenses")
 V("C19", "destination-without-txt", "F", "R2", DLP, '    return licenses_path / "".join((spdx_identifier, ".txt"))', '    return licenses_path / spdx_identifier')
 V("C19", "second-network-caller", "F", "R1", R + "_util.py", "def cleandoc_nl(text: str) -> str:", "def _ping() -> None:\n    import urllib.request\n    urllib.request.urlopen('https://spdx.org')\n\n\ndef cleandoc_nl(text: str) -> str:")
+
+# ----------------------------------------------------------------- C11
+ANP = R + "_annotate.py"
+CAP = R + "cli/annotate.py"
+V("C11", "touch-again-fallback", "F", "R1", ANP, "            path = _determine_license_suffix_path(path)\n            comment_style = EmptyCommentStyle", "            path = _determine_license_suffix_path(path)\n            path.touch()\n            comment_style = EmptyCommentStyle")
+V("C11", "touch-again-cli", "F", "R1", CAP, "            path = Path(new_path)\n", "            path = Path(new_path)\n            path.touch()\n")
+V("C11", "write-in-except", "F", "R1", ANP, "        out.write(\"\\n\")\n        result = 1\n    except MissingReuseInfoError:", "        out.write(\"\\n\")\n        result = 1\n        Path(path).write_text(text)\n    except MissingReuseInfoError:")
+V("C11", "failure-result-0", "F", "R1", ANP, "        out.write(\"\\n\")\n        result = 1\n    except MissingReuseInfoError:", "        out.write(\"\\n\")\n    except MissingReuseInfoError:")
+V("C11", "break-after-failure", "F", "R2", CAP, "            out=sys.stdout,\n        )\n\n    sys.exit(min(result, 1))", "            out=sys.stdout,\n        )\n        if result:\n            break\n\n    sys.exit(min(result, 1))")
+V("C11", "exit-result-raw", "F", "R2", CAP, "    sys.exit(min(result, 1))", "    sys.exit(0 if not result else 0)")
+V("C11", "line-handling-after-loop", "F", "R3", CAP, "    # Verify line handling and comment styles before proceeding.\n    verify_paths_line_handling(single_line, multi_line, style, paths)\n", "")
+V("C11", "mutex-dropped", "F", "R3", CAP, '    "--multi-line",\n    cls=MutexOption,\n    mutually_exclusive=_LINE_MUTEX,\n', '    "--multi-line",\n')
+V("C11", "terminator-not-checked", "F", "R4", R + "comment.py", "            if cls.MULTI_LINE.end in text:\n                raise CommentCreateError(\n                    f\"'{line}' contains a premature comment delimiter\"\n                )\n", "")
+V("C11", "only-one-exception-handled", "F", "R1", ANP, "    except MissingReuseInfoError:\n        out.write(\n            _(\n                \"Error: Generated comment header for '{path}' is missing\"", "    except KeyError:\n        out.write(\n            _(\n                \"Error: Generated comment header for '{path}' is missing\"")
